@@ -5,6 +5,10 @@ PROP = dict(
     gen=["Kernels"],
     tie_modules=["M3d.Lemmas.KernelsTieBounded", "M3d.Lemmas.KernelsTiePolytope", "M3d.Lemmas.KernelsTieRectSet"],
     corr_theorems=(
+        "kind `triline` (toolbox3d.TriangularLine and the one-segment TriangularPolygon, line_join.go): BoundsValid and Contains of the REAL "
+        "solid against the definition `triDef` (projection between the endpoints, L1 distance over the candidates of Segment.ClosestL1 < thickness) "
+        "evaluated exactly at Rat — M3d.C03.wrapper_does_not_cut_triline / triline_def_in_box / triline_bounds_ordered / triline_bounded; "
+        "only points whose deciding quantities are 1e-6 away from zero enter a case (float closure = exact definition there); "
         "kind `tree` compares Min()/Max()/BoundsValid/Contains of the REAL solid built by the library's constructors with "
         "SolidExpr.bounds/contains of the model (M3d.Bd.SolidExpr.eval) on the same expression and points — mode q at Rat (the instance "
         "M3d.C03.bounded_sound / bounds_ordered / wrapper_does_not_cut_* cover), mode f at Float (same operations in the same order); "
@@ -34,6 +38,9 @@ PROP = dict(
         "objects) and rectset_program_answers (the driver's output IS that requirement; its internal failure markers are unreachable)"
     ),
     rule=(
+        "kind triline: random segments (7/8 oblique; axis-aligned, planar and exact-diagonal special cases), thickness 1/16..5, 36 points per case "
+        "just inside the flat end caps, past the endpoints, on the L1 ridges (offset along a coordinate axis) and in the cross-section plane at "
+        "0.2..1.3 of the thickness; "
         "random expression trees of depth 0..6 (2D and 3D, half exact/half float) over Rect/Sphere/Circle leaves and opaque leaves "
         "(every primitive and toolbox part), built with ForceSolidBounds, CacheSolidBounds, JoinedSolid, IntersectedSolid (incl. disjoint "
         "boxes), SubtractedSolid, StackSolids, StackedSolid, TransformSolid over Translate/Scale/VecScale (negative, anisotropic)/"
